@@ -3,7 +3,7 @@
        <cfg> = nv (id value velocity energy tforce aforce extlag external)* nb (id kind nvars var* energy centers chgc chgk accw coupling grad)*
        events: C it | G <cfg> | S <cfg> | F f | R it0
    VEL dt n (t x)*                     -> hex values of v_<name>
-   RUNAVE L stride n (t x)*            -> "t av var sd ; ..."
+   RUNAVE L stride it0 n (t x)*        -> "t av var sd ; ..."
    ACF type normalize len stride off dim n (t self{dim} other{dim})*  -> "nframes | lag val ; ..." *)
 open Model
 open X_fops
@@ -77,12 +77,12 @@ let () =
          | "VEL" ->
            let dt = nf () in let n = ni () in
            let h = List.init n (fun _ -> let t = nn () in let x = nf () in (t, x)) in
-           let r = vel_run fops dt { vs_xold = 0.0; vs_vfdiff = 0.0; vs_vrep = 0.0 } h in
+           let r = vel_run fops dt { vs_xold = 0.0; vs_vfdiff = 0.0; vs_vrep = 0.0 } None h in
            Printf.printf "%s\n" (String.concat " " (List.map hex r))
          | "RUNAVE" ->
-           let l = nn () in let stride = nn () in let n = ni () in
+           let l = nn () in let stride = nn () in let it0 = nn () in let n = ni () in
            let h = List.init n (fun _ -> let t = nn () in let x = nf () in (t, x)) in
-           let r = runave_run fops l stride r0 None h in
+           let r = runave_run fops l stride it0 r0 None h in
            Printf.printf "%s\n" (String.concat " ; " (List.map (fun (((t, av), var), sd) ->
                Printf.sprintf "%d %s %s %s" (int_of_nat t) (hex av) (hex var) (hex sd)) r))
          | "ACF" ->
